@@ -7,6 +7,28 @@
 #include <string>
 #include <vector>
 using namespace adept;
+// -DC07_RANK2: the same histories on n x 1 matrices (Array<2> constructors, row-range slicing, resize(n,1)): the life-cycle
+// protocol and everything printed are the same as for vectors of n elements
+#ifdef C07_RANK2
+typedef Matrix Vector_;
+#define NEWN(n) new Vector_(n, 1)
+#define LOCAL(t, n) Vector_ t(n, 1)
+#define AT(v, j) (v)(j, 0)
+#define SL(v, b, e) (v)(range(b, e), __)
+#define EXT(p) Vector_(p, dimensions(BL, 1))
+#define RESIZE(v, n) (v).resize(n, 1)
+#define LEN(v) (v).dimension(0)
+#else
+typedef Vector Vector_;
+#define NEWN(n) new Vector_(n)
+#define LOCAL(t, n) Vector_ t(n)
+#define AT(v, j) (v)(j)
+#define SL(v, b, e) (v)(range(b, e))
+#define EXT(p) Vector_(p, dimensions(BL))
+#define RESIZE(v, n) (v).resize(n)
+#define LEN(v) (v).size()
+#endif
+#define Vector Vector_
 static const int NS = 6, NB = 2, BL = 4;
 struct World {
   Vector* a[NS]; double buf[NB][BL];
@@ -18,8 +40,8 @@ static void show(World& w, std::ostream& os) {
   for (int i = 0; i < NS; ++i) {
     if (!w.a[i]) { os << " -"; continue; }
     Vector& v = *w.a[i];
-    os << " " << v.size() << ":" << (v.storage() ? v.storage()->n_links() : 0) << ":";
-    for (int j = 0; j < v.size(); ++j) os << (j ? "," : "") << (long)v(j);
+    os << " " << LEN(v) << ":" << (v.storage() ? v.storage()->n_links() : 0) << ":";
+    for (int j = 0; j < LEN(v); ++j) os << (j ? "," : "") << (long)AT(v, j);
   }
   os << " ;";
   for (int k = 0; k < NB; ++k) { os << " "; for (int j = 0; j < BL; ++j) os << (j ? "," : "") << (long)w.buf[k][j]; }
@@ -37,21 +59,21 @@ int main() {
       while (is >> op) {
         int i = -1, j = -1, b = 0, n = 0, k = 0; long v = 0;
         try {
-          if (op == "N") { is >> i >> n >> v; if (!w.a[i] && n > 0) { w.a[i] = new Vector(n); *w.a[i] = (double)v; } }
+          if (op == "N") { is >> i >> n >> v; if (!w.a[i] && n > 0) { w.a[i] = NEWN(n); *w.a[i] = (double)v; } }
           else if (op == "E") { is >> i; if (!w.a[i]) w.a[i] = new Vector(); }
           else if (op == "C") { is >> i >> j; if (!w.a[i] && w.a[j]) w.a[i] = new Vector(*w.a[j]); }
-          else if (op == "S") { is >> i >> j >> b >> n; if (!w.a[i] && w.a[j] && b + n <= w.a[j]->size() && n > 0) w.a[i] = new Vector((*w.a[j])(range(b, b + n - 1))); }
+          else if (op == "S") { is >> i >> j >> b >> n; if (!w.a[i] && w.a[j] && b + n <= LEN(*w.a[j]) && n > 0) w.a[i] = new Vector(SL(*w.a[j], b, b + n - 1)); }
           else if (op == "F") { is >> i >> j; if (!w.a[i] && w.a[j]) w.a[i] = new Vector(w.a[j]->soft_link()); }
-          else if (op == "X") { is >> i >> k; if (!w.a[i] && k < NB) w.a[i] = new Vector(w.buf[k], dimensions(BL)); }
+          else if (op == "X") { is >> i >> k; if (!w.a[i] && k < NB) w.a[i] = new EXT(w.buf[k]); }
           else if (op == "L") { is >> i >> j; if (w.a[i] && w.a[j] && i != j) w.a[i]->link(*w.a[j]); }
           else if (op == "A") { is >> i >> j; if (w.a[i] && w.a[j]) *w.a[i] = *w.a[j]; }
-          else if (op == "MO") { is >> i >> n >> v; if (w.a[i] && n > 0) { Vector t(n); t = (double)v; *w.a[i] = std::move(t); } }
-          else if (op == "MX") { is >> i >> k; if (w.a[i] && k < NB) *w.a[i] = Vector(w.buf[k], dimensions(BL)); }
-          else if (op == "MS") { is >> i >> j >> b >> n; if (w.a[i] && w.a[j] && b + n <= w.a[j]->size() && n > 0) *w.a[i] = (*w.a[j])(range(b, b + n - 1)); }
-          else if (op == "R") { is >> i >> n; if (w.a[i]) w.a[i]->resize(n); }
+          else if (op == "MO") { is >> i >> n >> v; if (w.a[i] && n > 0) { LOCAL(t, n); t = (double)v; *w.a[i] = std::move(t); } }
+          else if (op == "MX") { is >> i >> k; if (w.a[i] && k < NB) *w.a[i] = EXT(w.buf[k]); }
+          else if (op == "MS") { is >> i >> j >> b >> n; if (w.a[i] && w.a[j] && b + n <= LEN(*w.a[j]) && n > 0) *w.a[i] = SL(*w.a[j], b, b + n - 1); }
+          else if (op == "R") { is >> i >> n; if (w.a[i]) RESIZE(*w.a[i], n); }
           else if (op == "CL") { is >> i; if (w.a[i]) w.a[i]->clear(); }
           else if (op == "D") { is >> i; if (w.a[i]) { delete w.a[i]; w.a[i] = 0; } }
-          else if (op == "W") { is >> i >> k >> v; if (w.a[i] && k < w.a[i]->size()) (*w.a[i])(k) = (double)v; }
+          else if (op == "W") { is >> i >> k >> v; if (w.a[i] && k < LEN(*w.a[i])) AT(*w.a[i], k) = (double)v; }
         } catch (adept::exception&) { os << "! "; }
         show(w, os);
       }
